@@ -235,6 +235,15 @@ func (e *Env) addrOf(x Expr) (string, types.Type) {
 		if strings.HasPrefix(x.Sel, "$") {
 			g.fail("address of ghost field")
 		}
+		// a struct-valued field of an addressable object: go through its address instead of loading it whole
+		if _, isSel := x.X.(*ESel); isSel {
+			if ba, bt, ok := e.tryAddrOf(x.X); ok {
+				if _, isStruct := bt.Underlying().(*types.Struct); isStruct {
+					a, ft, _ := e.fieldPath(Term{ba, SRef}, types.NewPointer(bt), x.Sel, true)
+					return a, ft
+				}
+			}
+		}
 		base, bty := e.tr(x.X)
 		if bty.G == nil {
 			g.fail("selector on non-Go value: %s", x)
@@ -393,6 +402,13 @@ func (e *Env) trSel(x *ESel) (Term, Ty) {
 						return sub.trObject(obj)
 					}
 				}
+			}
+		}
+	}
+	if !strings.HasPrefix(x.Sel, "$") {
+		if _, isSel := x.X.(*ESel); isSel {
+			if a, ft, ok := e.tryAddrOf(x); ok {
+				return g.load(e.st, a, ft), goTy(ft)
 			}
 		}
 	}
@@ -1134,4 +1150,19 @@ func (e *Env) ghostBase(base Term, x Expr, sel string) string {
 	// a struct value held in an addressable cell (e.g. a sync.Mutex field): use its address
 	a, _ := e.addrOf(x)
 	return a
+}
+
+// tryAddrOf is addrOf that reports failure instead of aborting.
+func (e *Env) tryAddrOf(x Expr) (a string, t types.Type, ok bool) {
+	defer func() {
+		if r := recover(); r != nil {
+			if _, is := r.(unsupported); is {
+				ok = false
+				return
+			}
+			panic(r)
+		}
+	}()
+	a, t = e.addrOf(x)
+	return a, t, t != nil
 }
